@@ -934,9 +934,8 @@ class SimpleShape(DefinedShape):
             return False
         if areaA > 0:
             return True
-        # If simple shape is not a square
-        # may happens error here
-        return True
+        # Both are unbounded: A in B iff (not B) in (not A)
+        return (~self) in (~other)
 
 
 class ConnectedShape(DefinedShape):
